@@ -52,7 +52,32 @@ func genC20Case(r *rand.Rand, rsync bool) SDCase {
 	restarts := 0
 	wroteSince := false
 	dcLive := false
-	if !rsync && r.Intn(3) == 0 {
+	opening := -1
+	if !rsync {
+		opening = r.Intn(3)
+	}
+	if opening == 1 {
+		// directed opening: a dataset is deleted as the first write of a hub lifetime that ends without a backup run
+		// (whatever the storage engine does with delete markers at shutdown or start-up, the next run's backup has
+		// to carry the deletion)
+		e0, e1 := gen.Entity(r, v, v.IDs[0]), gen.Entity(r, v, v.IDs[1])
+		cur["da|"+v.IDs[0]] = e0
+		c.Ops = append(c.Ops, SDOp{Kind: "batch", DS: "da", Ents: []model.Ent{e0}}, SDOp{Kind: "create", DS: "dc"},
+			SDOp{Kind: "batch", DS: "dc", Ents: []model.Ent{e1}}, SDOp{Kind: "backup"}, SDOp{Kind: "restart"},
+			SDOp{Kind: "delete", DS: "dc"}, SDOp{Kind: "restart"})
+		// (sometimes several restarts: every shutdown leaves one more level-0 table, the fifth starts a compaction)
+		for k := []int{0, 0, 6}[r.Intn(3)]; k > 0; k-- {
+			c.Ops = append(c.Ops, SDOp{Kind: "restart", Reader: 400})
+			tags["many-restarts-after-delete"] = true
+		}
+		c.Ops = append(c.Ops, SDOp{Kind: "backup"})
+		backups = 2
+		restarts = 2
+		tags["delete-between-restarts"] = true
+		tags["write-between-backups"] = true
+		tags["restart-between-backups"] = true
+	}
+	if opening == 0 {
 		// directed opening: an idle run (nothing written since the previous run) followed by a deletion and a run
 		e0, e1 := gen.Entity(r, v, v.IDs[0]), gen.Entity(r, v, v.IDs[1])
 		cur["da|"+v.IDs[0]] = e0
@@ -409,6 +434,11 @@ func runC20Case(ctx *Ctx, c SDCase) {
 			}
 			c20DropCronEntries()
 			s.core = hub.OpenCoreEnv(env.confAlias)
+			if op.Reader > 0 {
+				// the hub stays up for a moment (scheduling aid, not part of any verdict): the storage engine's
+				// start-up compaction of level 0 gets the time to finish that any real hub lifetime gives it
+				time.Sleep(time.Duration(op.Reader) * time.Millisecond)
+			}
 			s.mg.ctxStore = server.NewContextualStore(s.core.Store)
 			bm, err = server.NewBackupManager(s.core.Store, env.confAlias)
 			if err != nil || bm == nil {
@@ -518,6 +548,13 @@ func (s *sdRun) c20RestoreAndCompare(dir string, rsync bool, want map[string]str
 			if n > 1 {
 				cls += "-after-incremental-run"
 			}
+			if k == "datasets|" && n > 1 && s.c20DeletedBackAfterRestarts(want[k], got[k]) {
+				// listed finding: see known_findings.json (the storage engine's level-0 compaction at start-up
+				// drops delete markers the incremental backup has not seen yet)
+				cls = "deleted-dataset-back-after-restarts-without-backup"
+				// every later restore of this history carries the dataset as well: the history ends here
+				s.abort = true
+			}
 			s.viol("C20", cls, fmt.Sprintf("backup run %d: the restored hub answers %s differently from the source hub at the time the run started", n, k), want[k], got[k])
 			return
 		}
@@ -527,6 +564,44 @@ func (s *sdRun) c20RestoreAndCompare(dir string, rsync bool, want map[string]str
 }
 
 // c20Foreign: a backup location carrying another store's id must not be modified.
+// c20DeletedBackAfterRestarts: every dataset the restore has and the source has not was deleted after the previous
+// backup run, and at least four restarts lie between that deletion and the run being judged.
+func (s *sdRun) c20DeletedBackAfterRestarts(want, got string) bool {
+	have := map[string]bool{}
+	for _, n := range strings.Split(want, ",") {
+		have[n] = true
+	}
+	var back []string
+	for _, n := range strings.Split(got, ",") {
+		if !have[n] {
+			back = append(back, n)
+		}
+	}
+	if len(back) == 0 || len(strings.Split(got, ",")) != len(have)+len(back) {
+		return false
+	}
+	for _, n := range back {
+		del, restarts := -1, 0
+		for i := s.opIdx - 1; i >= 0; i-- {
+			k := s.c.Ops[i].Kind
+			if strings.HasPrefix(k, "backup") {
+				break
+			}
+			if k == "restart" {
+				restarts++
+			}
+			if k == "delete" && s.c.Ops[i].DS == n {
+				del = i
+				break
+			}
+		}
+		if del < 0 || restarts < 4 {
+			return false
+		}
+	}
+	return true
+}
+
 func c20Foreign(ctx *Ctx, r *rand.Rand) {
 	c := map[string]any{"kind": "foreign-location", "n": r.Intn(1000)}
 	id := outHash(c)
@@ -537,6 +612,15 @@ func c20Foreign(ctx *Ctx, r *rand.Rand) {
 	_ = os.MkdirAll(env.BackupLocation, 0o755)
 	_ = os.WriteFile(filepath.Join(env.BackupLocation, server.StorageIDFileName), []byte("424242"), 0o644)
 	_ = os.WriteFile(filepath.Join(env.BackupLocation, "datahub-backup.kv"), []byte("someone else's backup"), 0o644)
+	if c["n"].(int)%2 == 1 {
+		// configuration variant: BACKUP_SOURCE_LOCATION still points at the directory of the store the backup
+		// belongs to (the hub has moved to a new, empty store); the location is foreign to the running store all the same
+		old := filepath.Join(dir, "old-store")
+		_ = os.MkdirAll(old, 0o755)
+		_ = os.WriteFile(filepath.Join(old, server.StorageIDFileName), []byte("424242"), 0o644)
+		env.BackupSourceLocation = old
+		ctx.Out.Stat("c20_foreign_locations_with_stale_source_location", 1)
+	}
 	core := hub.OpenCoreEnv(env.confAlias)
 	defer core.Close()
 	defer c20DropCronEntries()
